@@ -39,7 +39,16 @@ def coq_sources():
 
 
 def ensure_built(clean=False):
-    """Full .vo build of coq/, Properties.v log, extraction, OCaml drivers. Returns dict with status."""
+    """Full .vo build of coq/, Properties.v log, extraction, OCaml drivers. Returns dict with status.
+    Serialised by a file lock: several checks may be started at the same time."""
+    import fcntl
+    os.makedirs(os.path.join(VERIF, ".cache"), exist_ok=True)
+    with open(os.path.join(VERIF, ".cache", "build.lock"), "w") as lockf:
+        fcntl.flock(lockf, fcntl.LOCK_EX)
+        return _ensure_built(clean)
+
+
+def _ensure_built(clean=False):
     st = {"ok": True, "errors": []}
     if clean:
         for pat in ("*.vo", "*.vok", "*.vos", "*.glob", ".*.aux", "Makefile", "Makefile.conf", ".Makefile.d", "*.log"):
